@@ -2,7 +2,7 @@
    fails to compile if Props/C13.v is weakened, renamed or given other hypotheses. *)
 From Coq Require Import SpecFloat.
 Require Import Base Value Float PrintOptions Printer ParseOptions Utf8 Reader Scan Num NumberOps Parser.
-Require Import TextProofs RoundtripProofs AcceptedProofs.
+Require Import TextProofs RoundtripProofs AcceptedProofs ValidTextProofs.
 Require Import Lexpr.Props.C13.
 
 Check (C13_accepted_in_class :
@@ -16,6 +16,11 @@ Check (C13_float_free_in_c01_class :
 Check (C13_parse_print_parse_partial :
   forall alpha fast std_parse ryu k k' inp v, k <> SrcStr ->
   from_trait default_ro alpha fast std_parse k inp = POk v -> float_free v ->
+  from_trait default_ro alpha fast std_parse k' (bytes_events (print0 ryu v)) = POk v).
+
+Check (C13_str_first_source_partial :
+  forall alpha fast std_parse ryu k' W v, utf8_valid W = true ->
+  from_trait default_ro alpha fast std_parse SrcStr (bytes_events W) = POk v -> float_free v ->
   from_trait default_ro alpha fast std_parse k' (bytes_events (print0 ryu v)) = POk v).
 
 Check (C13_fixed_point_partial :
